@@ -163,7 +163,7 @@ def run_one(rec, G, tag, alphabet, maxlen, bytes_mode=False, shiftable=True, nam
 
 def run_shard(rec):
     quick = rec.tier == 'quick'
-    rec.deadline = time.time() + (60 if quick else 900)
+    rec.deadline = time.time() + (300 if quick else 900)
     idx = 0
     for tag, G in curated():
         idx += 1
